@@ -26,6 +26,12 @@ def run(ctx):
                         "forgery resistance is checked on enumerated mutations, not on all byte strings"]
     drv = ctx.go_build("c04")
     trace = ctx.scratch + "/c04.ndjson"
+    if ctx.replay:   # re-execute exactly the recorded case against the current tree and re-judge it
+        ctx.run([drv, "-out", trace, "-replay", ctx.replay])
+        mism, n = ctx.validate_events("Trace_MAC", trace)
+        for m in mism:
+            ctx.violation("replay", "%s (spec expected %s)" % (m["bad"][0], m["bad"][1:]), dict(event=m["event"], spec_says=m["bad"]))
+        return
     r = ctx.run([drv, "-out", trace])
     ctx.log(r.stdout.strip())
     mism, n = ctx.validate_events("Trace_MAC", trace)
